@@ -119,6 +119,54 @@ def check(run: Run) -> None:
                     if a[0] == "app" and a[1] == ("global", "copy.deepcopy") and a[2] and a[2][0][0] == "subscript" and a[2][0][1] == ("attr", vp, field):
                         good = True
         run.check(good, "C14.R3", vs, vs.node, f"Subscript of a {k} literal returns (a copy of) the selected element", f"no path of visit_Subscript projects an element out of a {k} literal")
+    # ---------------- R5: a projection out of a tuple / list literal is refused only for the designed reasons
+    run.rule("C14.R5", "tuple/list projection is left intact only because of the selector's shape or a *top-level* starred element - nothing else about the literal")
+    from ..terms import root_of
+
+    for k in ("ast.Tuple", "ast.List"):
+        if k not in hmap:
+            continue
+        h = hmap[k][0]
+        fh = ctx.analysis(h)
+        vp, sp = ("param", h.pos_params[1]), ("param", h.pos_params[2])
+        n_ref = 0
+        for s_, n_ in fh.returns():
+            t = strip_sites(fh.term_of(s_.value, n_)) if s_.value is not None else ("const", None)
+            if not any(a[0] == "new" and a[1] == "Subscript" for a in unphi_terms(t)):
+                continue
+            n_ref += 1
+            raw_atoms = Facts(fh, s_, expand=False).atoms
+            full_atoms = Facts(fh, s_).atoms
+            raw_keys = {(ast.dump(a), p) for a, p in raw_atoms}
+            derived = [(a, p) for a, p in full_atoms if (ast.dump(a), p) not in raw_keys]
+            for a, pol in full_atoms:
+                if (ast.dump(a), pol) in raw_keys and derived and isinstance(a, ast.Call) and not (isinstance(a.func, ast.Name) and a.func.id in ("any", "all", "isinstance", "len", "type")):
+                    continue  # a package predicate: judged through the conditions it stands for
+                about_v = []
+                for x in ast.walk(a):
+                    if isinstance(x, (ast.Name, ast.Attribute)) and fh.cfg.has_node(x):
+                        try:
+                            tx = strip_sites(fh.term_of(x))
+                        except AnalysisError:
+                            continue
+                        if tx == vp or root_of(tx) == vp:
+                            about_v.append(tx)
+                if not about_v:
+                    continue  # a test on the selector alone
+                designed = False
+                if isinstance(a, ast.Call) and isinstance(a.func, ast.Name) and a.func.id == "any" and len(a.args) == 1 and isinstance(a.args[0], (ast.GeneratorExp, ast.ListComp)) and len(a.args[0].generators) == 1:
+                    g = a.args[0].generators[0]
+                    e = a.args[0].elt
+                    it_ok = isinstance(g.iter, ast.Attribute) and g.iter.attr == "elts" and fh.cfg.has_node(g.iter.value) and strip_sites(fh.term_of(g.iter.value)) == vp
+                    elt_ok = isinstance(e, ast.Call) and isinstance(e.func, ast.Name) and e.func.id == "isinstance" and len(e.args) == 2 and isinstance(e.args[0], ast.Name) and isinstance(g.target, ast.Name) and e.args[0].id == g.target.id and ast.unparse(e.args[1]) == "ast.Starred" and not g.ifs
+                    designed = it_ok and elt_ok
+                elif isinstance(a, ast.Call) and isinstance(a.func, ast.Name) and a.func.id == "isinstance" and len(a.args) == 2 and ast.unparse(a.args[1]) == "ast.Starred" and fh.cfg.has_node(a.args[0]) and strip_sites(fh.term_of(a.args[0])) == ("elem", ("attr", vp, "elts")):
+                    designed = True  # the same test written as a loop over v.elts
+                elif isinstance(a, ast.Compare) and any(isinstance(x, ast.Call) and isinstance(x.func, ast.Name) and x.func.id == "len" for x in ast.walk(a)) and all(tx == ("attr", vp, "elts") for tx in about_v):
+                    designed = True  # the index bound (n >= len(v.elts)) seen with either truth value on the way here
+                run.check(designed, "C14.R5", h, s_, "the refusal depends on the literal only through 'has a top-level starred element'", f"{h.name} leaves the projection in place when {ast.unparse(a)[:100]} is {pol}: a condition on the literal other than a top-level *element (e.g. a star somewhere inside an element) keeps tuples/lists and their subscripts in the query although the position is static", "any(isinstance(e, ast.Starred) for e in v.elts)")
+        run.floor("C14.R5", n_ref, 1, f"left-intact returns in {h.name}")
+
     va = cls.methods["visit_Attribute"]
     fa2 = ctx.analysis(va)
     nodea = ("param", va.pos_params[1])
